@@ -21,7 +21,7 @@ pub enum Task {
     RoundTrip { len: usize, repetitive: bool },
     /// as RoundTrip, but the query for chunk number `victim` (0 = data map chunk) is answered
     /// `how`: 0 not found, 1 timeout, 2 another valid chunk of the same data, 3 a foreign valid
-    /// chunk, 4 right bytes under the wrong record kind, 5 bytes that do not deserialise, 6 another valid chunk under its own key, 7 other content labelled with the requested address
+    /// chunk, 4 right bytes under the wrong record kind, 5 bytes that do not deserialise, 6 another valid chunk under its own key, 7 other content labelled with the requested address, 8 (root only) the data-map chunk of another file whose chunks are available
     DataWithFault { len: usize, victim: u32, how: u8 },
     /// chunk_get of one chunk with a byzantine answer (`how` as above, 2..5)
     ChunkGet { len: usize, how: u8 },
@@ -40,6 +40,18 @@ pub struct Plan {
     pub sels: Vec<u32>,
     /// duplicate every n-th reply (0 = never)
     pub dup_every: u8,
+    /// CHUNK_DOWNLOAD_BATCH_SIZE of the process that generated the plan (read once per process by the client;
+    /// the `run` script adds a companion run with 0, the boundary value: no concurrency)
+    #[serde(default = "default_batch")]
+    pub batch: u8,
+}
+
+fn default_batch() -> u8 {
+    3
+}
+
+fn process_batch() -> u8 {
+    std::env::var("CHUNK_DOWNLOAD_BATCH_SIZE").ok().and_then(|v| v.parse().ok()).unwrap_or(3)
 }
 
 pub struct ClientSim;
@@ -114,7 +126,7 @@ impl Sim for ClientSim {
             }
             ("C14", _) => Task::DataWithFault { len: interesting_len(rng, ctx.tier), victim: rng.below(1 << 16) as u32, how: rng.below(2) as u8 },
             _ => match rng.below(if SMALL_CHUNK_BUILD { 2 } else { 4 }) {
-                0 => Task::DataWithFault { len: interesting_len(rng, ctx.tier), victim: rng.below(1 << 16) as u32, how: 2 + rng.below(6) as u8 },
+                0 => Task::DataWithFault { len: interesting_len(rng, ctx.tier), victim: rng.below(1 << 16) as u32, how: 2 + rng.below(7) as u8 },
                 1 => Task::ChunkGet { len: rng.urange(3, 5000), how: 2 + rng.below(6) as u8 },
                 _ => {
                     let n = rng.urange(0, 8);
@@ -147,6 +159,7 @@ impl Sim for ClientSim {
                 })
                 .collect(),
             dup_every: if rng.chance(1, 3) { rng.range(1, 4) as u8 } else { 0 },
+            batch: process_batch(),
         }
     }
 
@@ -207,7 +220,20 @@ impl Sim for ClientSim {
 }
 
 fn main() {
-    // fixed for the whole process (LazyLock read once by the client)
-    std::env::set_var("CHUNK_DOWNLOAD_BATCH_SIZE", "3");
+    // fixed for the whole process (LazyLock read once by the client): 3, or what VERIF_CLIENT_BATCH says, or -
+    // when replaying - what the replay file's plan was generated under
+    let args: Vec<String> = std::env::args().collect();
+    let mut batch = std::env::var("VERIF_CLIENT_BATCH").ok().and_then(|v| v.parse::<u8>().ok()).unwrap_or(3);
+    if args.get(1).map(|a| a == "replay").unwrap_or(false) {
+        if let Some(b) = args
+            .get(2)
+            .and_then(|p| std::fs::read_to_string(p).ok())
+            .and_then(|t| serde_json::from_str::<serde_json::Value>(&t).ok())
+            .and_then(|v| v["plan"]["batch"].as_u64())
+        {
+            batch = b as u8;
+        }
+    }
+    std::env::set_var("CHUNK_DOWNLOAD_BATCH_SIZE", batch.to_string());
     simkit::check::main::<ClientSim>();
 }
